@@ -41,11 +41,14 @@ let tok_of_tx t =
 
 let raw_of t = opt hex_of_bytes (lib_raw t)
 
+(* SL:<s><l> — does the script layer refuse the transaction with strict=True / strict=False (Model/TxStrict.v) *)
 let spec_part b =
   match spec_parse b with
-  | Some (t, []) -> "SPEC:" ^ hex_of_bytes (spec_txid t) ^ ":" ^ (if spec_ser t = b then "1" else "0")
-  | Some (_, _) -> "SPEC:trailing"
-  | None -> "SPEC:reject"
+  | Some (t, []) ->
+      "SPEC:" ^ hex_of_bytes (spec_txid t) ^ ":" ^ (if spec_ser t = b then "1" else "0") ^
+      " SL:" ^ bool_s (sl_refuses true t) ^ bool_s (sl_refuses false t)
+  | Some (_, _) -> "SPEC:trailing SL:--"
+  | None -> "SPEC:reject SL:--"
 
 let dispatch = function
   | ["tx"; _tag; h] ->
@@ -91,10 +94,84 @@ let dispatch = function
         | Some _ -> "SPEC:trailing"
         | None -> "SPEC:reject" in
       first ^ " D:" ^ second ^ " " ^ third
+  | "bsess" :: h :: op :: ops ->
+      (* reader calls on ONE Block object: entry:P:k then T<k> | t | D | d | S *)
+      let b = bytes_of_hex h in
+      let rec nat_of_int n = if n <= 0 then O else S (nat_of_int (n - 1)) in
+      let bop_of s =
+        if s = "t" then BTx else if s = "D" then BDictAll else if s = "d" then BDictOne else if s = "S" then BSer
+        else if String.length s >= 2 && s.[0] = 'T' then
+          BTxs (nat_of_int (int_of_string (String.sub s 1 (String.length s - 1))))
+        else failwith "op" in
+      (match String.split_on_char ':' op with
+       | [_entry; p; k] ->
+           (match lib_bsession b (p = "1") (nat_of_int (int_of_string k)) (List.map bop_of ops) with
+            | None -> "ERR"
+            | Some (s0, run) ->
+                let snap st res =
+                  res ^ ";" ^
+                  (match st.bs_blk.lb_txs with
+                   | [] -> "-" | l -> String.concat "," (List.map (fun t -> hex_of_bytes t.l_txid) l)) ^
+                  ";" ^ str_z st.bs_blk.lb_tx_count in
+                let dtok (id, raw) = hex_of_bytes id ^ "/" ^ hex_of_bytes raw in
+                let res_of = function
+                  | OOk -> "ok"
+                  | OTx None -> "F"
+                  | OTx (Some id) -> hex_of_bytes id
+                  | ODicts [] -> "-"
+                  | ODicts l -> String.concat "," (List.map dtok l)
+                  | ODict None -> "F"
+                  | ODict (Some d) -> dtok d
+                  | OSer None -> "NOSER"
+                  | OSer (Some r) -> hex_of_bytes r in
+                let steps = List.map (function Some (st, o) -> snap st (res_of o) | None -> "X") run in
+                String.concat " | " ((snap s0 "ok" :: steps) @ ["#" ^ hex_of_bytes s0.bs_blk.lb_hash]))
+       | _ -> "BADREQ")
   | ["target"; n] ->
       let bits = z_of n in
       (match lib_target (be_bytes (S (S (S (S O)))) bits) with Some t -> str_z t | None -> "FLOAT") ^ " " ^
       str_z (spec_target bits)
   | _ -> "BADREQ"
 
-let () = main dispatch
+(* the extracted SHA-256 on Z is slow (65535-byte scripts take seconds): answer the request lines in parallel worker
+   processes (line j goes to worker j mod k, so neighbouring heavy cases are spread), output in request order *)
+let answer line =
+  let toks = Stdlib.String.split_on_char ' ' (Stdlib.String.trim line) in
+  try dispatch toks with
+  | Stack_overflow -> "CRASH stack"
+  | e -> "CRASH " ^ Printexc.to_string e
+
+let () =
+  let buf = ref [] in
+  (try while true do buf := input_line stdin :: !buf done with End_of_file -> ());
+  let lines = Array.of_list (List.rev !buf) in
+  let n = Array.length lines in
+  let want = try int_of_string (Sys.getenv "C06_DRIVER_WORKERS") with _ -> 8 in
+  let k = max 1 (min want (n / 8)) in
+  if k = 1 then begin
+    Array.iter (fun l -> print_string (answer l); print_char '\n') lines; flush stdout
+  end else begin
+    let dir = if Sys.file_exists "run" && Sys.is_directory "run" then "run" else Filename.get_temp_dir_name () in
+    let tmp = Array.init k (fun _ -> Filename.temp_file ~temp_dir:dir "c06drv" ".out") in
+    let pids = Array.init k (fun i ->
+        match Unix.fork () with
+        | 0 ->
+            let oc = open_out tmp.(i) in
+            let j = ref i in
+            while !j < n do
+              output_string oc (answer lines.(!j)); output_char oc '\n';
+              j := !j + k
+            done;
+            close_out oc; Unix._exit 0
+        | pid -> pid) in
+    Array.iter (fun pid -> ignore (Unix.waitpid [] pid)) pids;
+    let ics = Array.map open_in tmp in
+    for j = 0 to n - 1 do
+      (* a worker that died leaves its file short: the missing answers are reported as such *)
+      let l = try input_line ics.(j mod k) with End_of_file -> "CRASH worker died" in
+      print_string l; print_char '\n'
+    done;
+    Array.iter close_in ics;
+    Array.iter Sys.remove tmp;
+    flush stdout
+  end
